@@ -398,3 +398,662 @@ Qed.
 
 Lemma lmin_in l : l <> [] -> In (lmin l) l.
 Proof. destruct l as [|r rs]; [congruence|]. intros _. apply (lmin_char r rs). Qed.
+
+(* ================================================================== *)
+(* The loop of create_system falls apart into six independent tables *)
+Definition cL (m : list stream_meta) := run add_loom (flat_map loom_claim m) [].
+Definition cC (m : list stream_meta) := run add_cpu (cpu_claims m) [].
+Definition cP (m : list stream_meta) := run add_proc (flat_map proc_claim m) [].
+Definition cA (m : list stream_meta) := run add_app (app_claims m) [].
+Definition cR (m : list stream_meta) := run add_rank (rank_claims m) [].
+Definition cT (m : list stream_meta) := run add_thread (flat_map thread_claim m) [].
+
+Lemma add_thread_crash_free : crash_free add_thread.
+Proof. intros X k. unfold add_thread. destruct (snd k <=? 0); [discriminate|]. destruct (in_dec key_dec k X); discriminate. Qed.
+
+Lemma lift_ins_crash_free {F} dec valid confl : crash_free (fun (X : list F) f => lift (ins dec valid confl X f)).
+Proof. intros X f. destruct (ins dec valid confl X f); discriminate. Qed.
+Lemma add_loom_cf : crash_free add_loom. Proof. apply lift_ins_crash_free. Qed.
+Lemma add_cpu_cf : crash_free add_cpu. Proof. apply lift_ins_crash_free. Qed.
+Lemma add_proc_cf : crash_free add_proc. Proof. apply lift_ins_crash_free. Qed.
+Lemma add_app_cf : crash_free add_app. Proof. apply lift_ins_crash_free. Qed.
+Lemma add_rank_cf : crash_free add_rank. Proof. apply lift_ins_crash_free. Qed.
+Ltac cf := repeat first [apply par_crash_free | apply part_crash_free | apply run_crash_free
+                         | apply add_loom_cf | apply add_cpu_cf | apply add_proc_cf
+                         | apply add_app_cf | apply add_rank_cf | apply add_thread_crash_free].
+
+Lemma raw_decomp m :
+  raw m = pair_res (cL m) (pair_res (cC m) (pair_res (cP m) (pair_res (cA m) (pair_res (cR m) (cT m))))).
+Proof.
+  unfold raw, raw_gen, step_gen, st0, cL, cC, cP, cA, cR, cT, app_claims, rank_claims, cpu_claims.
+  rewrite (@run_par (list name) (cpu_table * (list pkey * (list app_fact * (list rank_fact * list key)))) stream_meta
+             (part add_loom loom_claim)) by cf.
+  rewrite (@run_par cpu_table (list pkey * (list app_fact * (list rank_fact * list key))) stream_meta
+             (part add_cpu cpu_claim)) by cf.
+  rewrite (@run_par (list pkey) (list app_fact * (list rank_fact * list key)) stream_meta
+             (part add_proc proc_claim)) by cf.
+  rewrite (@run_par (list app_fact) (list rank_fact * list key) stream_meta
+             (part add_app app_claim)) by cf.
+  rewrite (@run_par (list rank_fact) (list key) stream_meta
+             (part add_rank rank_claim)) by cf.
+  rewrite !run_part. rewrite (@run_part cpu_fact stream_meta add_cpu cpu_claim). reflexivity.
+Qed.
+
+Lemma pair_res_ok {A B} (ra : outcome A) (rb : outcome B) x :
+  pair_res ra rb = Ok x -> ra = Ok (fst x) /\ rb = Ok (snd x).
+Proof. destruct ra, rb; simpl; intros H; inversion H; subst; auto. Qed.
+
+Lemma pair_res_nocrash {A B} (ra : outcome A) (rb : outcome B) : pair_res ra rb <> Crash.
+Proof. destruct ra, rb; discriminate. Qed.
+
+Lemma pair_res_err {A B} (ra : outcome A) (rb : outcome B) :
+  ra <> Crash -> rb <> Crash -> (pair_res ra rb = Err <-> ra = Err \/ rb = Err).
+Proof. destruct ra, rb; simpl; intros; split; intros; try tauto; try discriminate; destruct H1; discriminate. Qed.
+
+Lemma raw_ok m st : raw m = Ok st ->
+  cL m = Ok (st_looms st) /\ cC m = Ok (st_cpus st) /\ cP m = Ok (st_procs st) /\
+  cA m = Ok (st_apps st) /\ cR m = Ok (st_ranks st) /\ cT m = Ok (st_threads st).
+Proof.
+  rewrite raw_decomp. intros H.
+  apply pair_res_ok in H. destruct H as [H1 H]. apply pair_res_ok in H. destruct H as [H2 H].
+  apply pair_res_ok in H. destruct H as [H3 H]. apply pair_res_ok in H. destruct H as [H4 H].
+  apply pair_res_ok in H. destruct H as [H5 H6]. repeat split; assumption.
+Qed.
+
+Lemma raw_no_crash m : raw m <> Crash.
+Proof. rewrite raw_decomp. apply pair_res_nocrash. Qed.
+
+Lemma raw_err m : raw m = Err <-> cL m = Err \/ cC m = Err \/ cP m = Err \/ cA m = Err \/ cR m = Err \/ cT m = Err.
+Proof.
+  rewrite raw_decomp.
+  assert (NL : cL m <> Crash) by cf.
+  assert (NC : cC m <> Crash) by cf.
+  assert (NP : cP m <> Crash) by cf.
+  assert (NA : cA m <> Crash) by cf.
+  assert (NR : cR m <> Crash) by cf.
+  assert (NT : cT m <> Crash) by (apply run_crash_free, add_thread_crash_free).
+  destruct (cL m); try congruence; destruct (cC m); try congruence; destruct (cP m); try congruence;
+    destruct (cA m); try congruence; destruct (cR m); try congruence; destruct (cT m); try congruence;
+    simpl; (split; [intros H; first [discriminate H | tauto]
+                   | intros H; first [reflexivity | (repeat destruct H as [H | H]); discriminate H]]).
+Qed.
+
+(* the thread table *)
+Lemma cT_char ks :
+  match run add_thread ks [] with
+  | Ok T => T = ks /\ NoDup ks /\ forall k, In k ks -> 0 < snd k
+  | Err => ~ NoDup ks \/ exists k, In k ks /\ snd k <= 0
+  | Crash => False
+  end.
+Proof.
+  induction ks as [|k ks IH] using rev_ind.
+  - simpl. split; [reflexivity | split; [constructor | intros k []]].
+  - rewrite run_app. destruct (run add_thread ks []) as [T| |]; simpl.
+    + destruct IH as (-> & HN & HP). unfold add_thread. destruct (snd k <=? 0) eqn:E.
+      * right. exists k. split; [apply in_or_app; right; left; reflexivity | apply Z.leb_le; exact E].
+      * destruct (in_dec key_dec k ks) as [Hin | Hnin].
+        -- left. intros HN'. apply NoDup_remove_2 in HN'. apply HN'. rewrite app_nil_r. exact Hin.
+        -- split; [reflexivity | split; [apply NoDup_snoc; assumption|]].
+           intros x Hx. apply in_app_or in Hx. destruct Hx as [Hx | [<- | []]]; [apply HP; exact Hx|].
+           apply Z.leb_gt in E. exact E.
+    + destruct IH as [HN | (x & Hx & Hle)].
+      * left. intros HN'. apply HN. apply NoDup_remove_1 in HN'. rewrite app_nil_r in HN'. exact HN'.
+      * right. exists x. split; [apply in_or_app; left; exact Hx | exact Hle].
+    + exact IH.
+Qed.
+
+Lemma cT_ok ks T : run add_thread ks [] = Ok T -> T = ks /\ NoDup ks /\ forall k, In k ks -> 0 < snd k.
+Proof. intros H. pose proof (cT_char ks) as C. rewrite H in C. exact C. Qed.
+
+Lemma cT_err ks : run add_thread ks [] = Err <-> (~ NoDup ks \/ exists k, In k ks /\ snd k <= 0).
+Proof.
+  pose proof (cT_char ks) as C. split.
+  - intros H. rewrite H in C. exact C.
+  - intros Hb. destruct (run add_thread ks []) as [T| |]; [|reflexivity|contradiction].
+    destruct C as (_ & HN & HP). destruct Hb as [Hb | (k & Hk & Hle)]; [contradiction|].
+    specialize (HP k Hk). lia.
+Qed.
+
+Lemma keys_claims m : flat_map thread_claim m = keys m.
+Proof. induction m as [|s m IH]; simpl; [reflexivity | rewrite IH; reflexivity]. Qed.
+Lemma loom_claims m : flat_map loom_claim m = map s_loom m.
+Proof. induction m as [|s m IH]; simpl; [reflexivity | rewrite IH; reflexivity]. Qed.
+Lemma proc_claims m : flat_map proc_claim m = map spkey m.
+Proof. induction m as [|s m IH]; simpl; [reflexivity | rewrite IH; reflexivity]. Qed.
+
+Lemma map_loom_keys m : map s_loom m = map (fun k : key => fst (fst k)) (keys m).
+Proof. unfold keys. rewrite map_map. reflexivity. Qed.
+Lemma map_pkey_keys m : map spkey m = map (fun k : key => fst k) (keys m).
+Proof. unfold keys. rewrite map_map. reflexivity. Qed.
+
+(* symmetry / irreflexivity of the conflict relations *)
+Lemma pkey_eqb_sym a b : pkey_eqb a b = pkey_eqb b a.
+Proof. unfold pkey_eqb. destruct (pkey_dec a b), (pkey_dec b a); congruence. Qed.
+Lemma pkey_eqb_true a b : pkey_eqb a b = true <-> a = b.
+Proof. unfold pkey_eqb. destruct (pkey_dec a b); split; congruence. Qed.
+Lemma name_eqb_sym a b : name_eqb a b = name_eqb b a.
+Proof. unfold name_eqb. destruct (name_dec a b), (name_dec b a); congruence. Qed.
+Lemma name_eqb_true a b : name_eqb a b = true <-> a = b.
+Proof. unfold name_eqb. destruct (name_dec a b); split; congruence. Qed.
+
+Lemma no_confl_sym {F} (f g : F) : no_confl f g = no_confl g f. Proof. reflexivity. Qed.
+Lemma no_confl_irrefl {F} (f : F) : no_confl f f = false. Proof. reflexivity. Qed.
+Lemma confl_app_sym f g : confl_app f g = confl_app g f.
+Proof. unfold confl_app. rewrite pkey_eqb_sym, (Z.eqb_sym (snd f)). reflexivity. Qed.
+Lemma confl_app_irrefl f : confl_app f f = false.
+Proof. unfold confl_app. rewrite Z.eqb_refl. apply andb_false_r. Qed.
+Lemma confl_rank_sym f g : confl_rank f g = confl_rank g f.
+Proof. unfold confl_rank. rewrite pkey_eqb_sym. destruct (rattr_dec (snd f) (snd g)), (rattr_dec (snd g) (snd f)); congruence. Qed.
+Lemma confl_rank_irrefl f : confl_rank f f = false.
+Proof. unfold confl_rank. destruct (rattr_dec (snd f) (snd f)); [apply andb_false_r | congruence]. Qed.
+Lemma confl_cpu_sym f g : confl_cpu f g = confl_cpu g f.
+Proof.
+  unfold confl_cpu. rewrite name_eqb_sym. destruct (snd f) as [[i p]|], (snd g) as [[j q]|]; try reflexivity.
+  rewrite (Z.eqb_sym i j), (Z.eqb_sym p q). reflexivity.
+Qed.
+Lemma confl_cpu_irrefl f : confl_cpu f f = false.
+Proof.
+  unfold confl_cpu. destruct (snd f) as [[i p]|]; [|apply andb_false_r].
+  rewrite !Z.eqb_refl. simpl. apply andb_false_r.
+Qed.
+
+(* ================================================================== *)
+(* The union decides whether create_system fails, and the tables up to order *)
+Lemma same_union_sym m1 m2 : same_union m1 m2 -> same_union m2 m1.
+Proof.
+  intros (K & A & R & C). repeat split; try (apply Permutation_sym; exact K); intros H; first [apply A | apply R | apply C]; exact H.
+Qed.
+
+Lemma same_union_looms m1 m2 : same_union m1 m2 -> Permutation (map s_loom m1) (map s_loom m2).
+Proof. intros (K & _). rewrite !map_loom_keys. apply Permutation_map. exact K. Qed.
+Lemma same_union_pkeys m1 m2 : same_union m1 m2 -> Permutation (map spkey m1) (map spkey m2).
+Proof. intros (K & _). rewrite !map_pkey_keys. apply Permutation_map. exact K. Qed.
+
+Lemma perm_same_set {A} (l1 l2 : list A) : Permutation l1 l2 -> same_set l1 l2.
+Proof. intros P x. split; apply Permutation_in; [exact P | apply Permutation_sym; exact P]. Qed.
+
+Lemma raw_err_union m1 m2 : same_union m1 m2 -> raw m1 = Err -> raw m2 = Err.
+Proof.
+  intros U H. apply raw_err. apply raw_err in H. pose proof U as (K & A & R & C).
+  destruct H as [H | [H | [H | [H | [H | H]]]]].
+  - left. unfold cL in *. rewrite loom_claims in *.
+    eapply (collect_err_same_set name_dec valid_name no_confl no_confl_sym no_confl_irrefl); [|exact H].
+    apply perm_same_set, same_union_looms, U.
+  - right; left. eapply (collect_err_same_set cpu_fact_dec valid_cpu confl_cpu confl_cpu_sym confl_cpu_irrefl); [exact C | exact H].
+  - right; right; left. unfold cP in *. rewrite proc_claims in *.
+    eapply (collect_err_same_set pkey_dec valid_proc no_confl no_confl_sym no_confl_irrefl); [|exact H].
+    apply perm_same_set, same_union_pkeys, U.
+  - do 3 right; left. eapply (collect_err_same_set app_fact_dec valid_app confl_app confl_app_sym confl_app_irrefl); [exact A | exact H].
+  - do 4 right; left. eapply (collect_err_same_set rank_fact_dec valid_rank confl_rank confl_rank_sym confl_rank_irrefl); [exact R | exact H].
+  - do 5 right. unfold cT in *. rewrite keys_claims in *. apply cT_err. apply cT_err in H.
+    destruct H as [H | (k & Hk & Hle)].
+    + left. intros HN. apply H. eapply Permutation_NoDup; [apply Permutation_sym; exact K | exact HN].
+    + right. exists k. split; [eapply Permutation_in; [exact K | exact Hk] | exact Hle].
+Qed.
+
+Definition st_equiv (st1 st2 : state) : Prop :=
+  Permutation (st_looms st1) (st_looms st2) /\ Permutation (st_cpus st1) (st_cpus st2) /\
+  Permutation (st_procs st1) (st_procs st2) /\ Permutation (st_apps st1) (st_apps st2) /\
+  Permutation (st_ranks st1) (st_ranks st2) /\ Permutation (st_threads st1) (st_threads st2).
+
+Lemma raw_ok_union m1 m2 st1 st2 : same_union m1 m2 -> raw m1 = Ok st1 -> raw m2 = Ok st2 -> st_equiv st1 st2.
+Proof.
+  intros U H1 H2. pose proof U as (K & A & R & C).
+  apply raw_ok in H1. apply raw_ok in H2.
+  destruct H1 as (L1 & C1 & P1 & A1 & R1 & T1). destruct H2 as (L2 & C2 & P2 & A2 & R2 & T2).
+  unfold st_equiv. repeat split.
+  - unfold cL in *. rewrite loom_claims in *.
+    eapply (collect_ok_same_set name_dec valid_name no_confl no_confl_sym no_confl_irrefl); [|exact L1|exact L2].
+    apply perm_same_set, same_union_looms, U.
+  - eapply (collect_ok_same_set cpu_fact_dec valid_cpu confl_cpu confl_cpu_sym confl_cpu_irrefl); [exact C|exact C1|exact C2].
+  - unfold cP in *. rewrite proc_claims in *.
+    eapply (collect_ok_same_set pkey_dec valid_proc no_confl no_confl_sym no_confl_irrefl); [|exact P1|exact P2].
+    apply perm_same_set, same_union_pkeys, U.
+  - eapply (collect_ok_same_set app_fact_dec valid_app confl_app confl_app_sym confl_app_irrefl); [exact A|exact A1|exact A2].
+  - eapply (collect_ok_same_set rank_fact_dec valid_rank confl_rank confl_rank_sym confl_rank_irrefl); [exact R|exact R1|exact R2].
+  - unfold cT in *. rewrite keys_claims in *. apply cT_ok in T1. apply cT_ok in T2.
+    destruct T1 as (-> & _). destruct T2 as (-> & _). exact K.
+Qed.
+
+(* ================================================================== *)
+(* What a successful create_system guarantees about the tables *)
+Record tables_ok (m : list stream_meta) (st : state) : Prop := {
+  tk_looms : forall l, In l (st_looms st) <-> In l (map s_loom m);
+  tk_procs : forall k, In k (st_procs st) <-> In k (map spkey m);
+  tk_apps : forall f, In f (st_apps st) <-> In f (app_claims m);
+  tk_ranks : forall f, In f (st_ranks st) <-> In f (rank_claims m);
+  tk_cpus : forall f, In f (st_cpus st) <-> In f (cpu_claims m);
+  tk_app_uniq : forall f g, In f (st_apps st) -> In g (st_apps st) -> fst f = fst g -> f = g;
+  tk_rank_uniq : forall f g, In f (st_ranks st) -> In g (st_ranks st) -> fst f = fst g -> f = g;
+  tk_rank_nonneg : forall f, In f (st_ranks st) -> 0 <= fst (snd f);
+  tk_cpu_valid : forall f, In f (st_cpus st) -> exists i p, snd f = Some (i, p) /\ 0 <= i /\ 0 <= p;
+  tk_cpu_phy : forall l i j p, In (l, Some (i, p)) (st_cpus st) -> In (l, Some (j, p)) (st_cpus st) -> i = j;
+  tk_cpu_idx : forall l i p q, In (l, Some (i, p)) (st_cpus st) -> In (l, Some (i, q)) (st_cpus st) -> p = q;
+  tk_threads : st_threads st = keys m
+}.
+
+Lemma raw_tables_ok m st : raw m = Ok st -> tables_ok m st.
+Proof.
+  intros H. apply raw_ok in H. destruct H as (L & C & P & A & R & T).
+  unfold cL in L. rewrite loom_claims in L.
+  apply (collect_ok name_dec valid_name no_confl no_confl_sym no_confl_irrefl) in L.
+  unfold cP in P. rewrite proc_claims in P.
+  apply (collect_ok pkey_dec valid_proc no_confl no_confl_sym no_confl_irrefl) in P.
+  apply (collect_ok app_fact_dec valid_app confl_app confl_app_sym confl_app_irrefl) in A.
+  apply (collect_ok rank_fact_dec valid_rank confl_rank confl_rank_sym confl_rank_irrefl) in R.
+  apply (collect_ok cpu_fact_dec valid_cpu confl_cpu confl_cpu_sym confl_cpu_irrefl) in C.
+  unfold cT in T. rewrite keys_claims in T. apply cT_ok in T.
+  destruct L as (_ & LI & _). destruct P as (_ & PI & _). destruct A as (_ & AI & _ & AC).
+  destruct R as (_ & RI & RV & RC). destruct C as (_ & CI & CV & CC). destruct T as (T & _).
+  constructor; auto.
+  - intros f g Hf Hg E. apply AI in Hf. apply AI in Hg. specialize (AC f g Hf Hg).
+    unfold confl_app in AC. destruct f as [kf af], g as [kg ag]; simpl in *. subst kg.
+    assert (EK : pkey_eqb kf kf = true) by (apply pkey_eqb_true; reflexivity). rewrite EK in AC. simpl in AC.
+    apply negb_false_iff, Z.eqb_eq in AC. congruence.
+  - intros f g Hf Hg E. apply RI in Hf. apply RI in Hg. specialize (RC f g Hf Hg).
+    unfold confl_rank in RC. destruct f as [kf af], g as [kg ag]; simpl in *. subst kg.
+    assert (EK : pkey_eqb kf kf = true) by (apply pkey_eqb_true; reflexivity). rewrite EK in RC. simpl in RC.
+    destruct (rattr_dec af ag); [congruence | discriminate].
+  - intros f Hf. apply RI in Hf. specialize (RV f Hf). unfold valid_rank in RV.
+    destruct (snd f) as [r [n|]]; [|discriminate]. simpl. apply andb_true_iff in RV. destruct RV as [RV _].
+    apply andb_true_iff in RV. destruct RV as [RV _]. apply Z.leb_le in RV. exact RV.
+  - intros f Hf. apply CI in Hf. specialize (CV f Hf). unfold valid_cpu in CV.
+    destruct (snd f) as [[i p]|]; [|discriminate]. exists i, p. apply andb_true_iff in CV. destruct CV as [V1 V2].
+    apply Z.leb_le in V1, V2. auto.
+  - intros l i j p Hf Hg. apply CI in Hf. apply CI in Hg. specialize (CC _ _ Hf Hg).
+    unfold confl_cpu in CC; simpl in CC.
+    assert (EK : name_eqb l l = true) by (apply name_eqb_true; reflexivity). rewrite EK in CC. simpl in CC.
+    rewrite Z.eqb_refl in CC. simpl in CC. apply orb_false_iff in CC. destruct CC as [_ CC].
+    apply negb_false_iff, Z.eqb_eq in CC. exact CC.
+  - intros l i p q Hf Hg. apply CI in Hf. apply CI in Hg. specialize (CC _ _ Hf Hg).
+    unfold confl_cpu in CC; simpl in CC.
+    assert (EK : name_eqb l l = true) by (apply name_eqb_true; reflexivity). rewrite EK in CC. simpl in CC.
+    rewrite Z.eqb_refl in CC. simpl in CC. apply orb_false_iff in CC. destruct CC as [CC _].
+    apply negb_false_iff, Z.eqb_eq in CC. exact CC.
+Qed.
+
+(* views of the tables *)
+Lemma in_procs_of st l p : In p (procs_of st l) <-> In (l, p) (st_procs st).
+Proof.
+  unfold procs_of. rewrite in_map_iff. split.
+  - intros ([l' p'] & E & H). simpl in E. subst p'. apply filter_In in H. destruct H as [H E].
+    simpl in E. apply name_eqb_true in E. subst l'. exact H.
+  - intros H. exists (l, p). split; [reflexivity|]. apply filter_In. split; [exact H|]. apply name_eqb_true. reflexivity.
+Qed.
+
+Lemma in_cpus_of st l e : In e (cpus_of st l) <-> In (l, Some e) (st_cpus st).
+Proof.
+  unfold cpus_of. rewrite in_flat_map. split.
+  - intros ([l' o] & H & E). apply filter_In in H. destruct H as [H N]. simpl in N. apply name_eqb_true in N. subst l'.
+    simpl in E. destruct o as [e'|]; [|contradiction]. destruct E as [<- | []]. exact H.
+  - intros H. exists (l, Some e). split; [|left; reflexivity].
+    apply filter_In. split; [exact H|]. apply name_eqb_true. reflexivity.
+Qed.
+
+Lemma perm_flat_map {A B} (f : A -> list B) l1 l2 : Permutation l1 l2 -> Permutation (flat_map f l1) (flat_map f l2).
+Proof.
+  induction 1; simpl.
+  - constructor.
+  - apply Permutation_app_head. assumption.
+  - rewrite !app_assoc. apply Permutation_app_tail. apply Permutation_app_comm.
+  - eapply Permutation_trans; eassumption.
+Qed.
+
+Lemma rank_of_some st k : 0 <= rank_of st k -> (forall f, In f (st_ranks st) -> 0 <= fst (snd f)) ->
+  exists f, In f (st_ranks st) /\ fst f = k /\ fst (snd f) = rank_of st k.
+Proof.
+  intros H _. unfold rank_of in *. destruct (find (fun f => pkey_eqb (fst f) k) (st_ranks st)) as [f|] eqn:E; [|lia].
+  apply find_some in E. destruct E as [I E]. apply pkey_eqb_true in E. exists f. auto.
+Qed.
+
+Section FinishUnion.
+  Variables (m1 m2 : list stream_meta) (st1 st2 : state).
+  Hypothesis U : same_union m1 m2.
+  Hypothesis TIES : rank_names_proc m1.
+  Hypothesis R1 : raw m1 = Ok st1.
+  Hypothesis R2 : raw m2 = Ok st2.
+
+  Let EQ : st_equiv st1 st2 := raw_ok_union _ _ _ _ U R1 R2.
+  Let W1 : tables_ok m1 st1 := raw_tables_ok _ _ R1.
+
+  Lemma fu_procs_of l : Permutation (procs_of st1 l) (procs_of st2 l).
+  Proof. destruct EQ as (_ & _ & P & _). unfold procs_of. apply Permutation_map, perm_filter, P. Qed.
+
+  Lemma fu_threads_of k : Permutation (threads_of st1 k) (threads_of st2 k).
+  Proof. destruct EQ as (_ & _ & _ & _ & _ & T). unfold threads_of. apply Permutation_map, perm_filter, T. Qed.
+
+  Lemma fu_cpus_of l : Permutation (cpus_of st1 l) (cpus_of st2 l).
+  Proof. destruct EQ as (_ & C & _). unfold cpus_of. apply perm_flat_map, perm_filter, C. Qed.
+
+  Lemma fu_rank_of k : rank_of st1 k = rank_of st2 k.
+  Proof.
+    destruct EQ as (_ & _ & _ & _ & R & _). unfold rank_of.
+    rewrite (find_perm_unique _ _ _ R); [reflexivity|].
+    intros x y Hx Hy Ex Ey. apply pkey_eqb_true in Ex, Ey. apply (tk_rank_uniq _ _ W1); auto. congruence.
+  Qed.
+
+  Lemma fu_app_of k : app_of st1 k = app_of st2 k.
+  Proof.
+    destruct EQ as (_ & _ & _ & A & _). unfold app_of.
+    rewrite (find_perm_unique _ _ _ A); [reflexivity|].
+    intros x y Hx Hy Ex Ey. apply pkey_eqb_true in Ex, Ey. apply (tk_app_uniq _ _ W1); auto. congruence.
+  Qed.
+
+  Lemma fu_loom_ranks l : Permutation (loom_ranks st1 l) (loom_ranks st2 l).
+  Proof.
+    unfold loom_ranks. rewrite (map_ext _ (fun p => rank_of st2 (l, p))) by (intros; apply fu_rank_of).
+    apply Permutation_map, fu_procs_of.
+  Qed.
+
+  Lemma fu_enabled l : rank_enabled st1 l = rank_enabled st2 l.
+  Proof. unfold rank_enabled. apply perm_existsb, fu_loom_ranks. Qed.
+  Lemma fu_incomplete l : rank_incomplete st1 l = rank_incomplete st2 l.
+  Proof. unfold rank_incomplete. rewrite fu_enabled. f_equal. apply perm_existsb, fu_loom_ranks. Qed.
+  Lemma fu_rank_min l : rank_min st1 l = rank_min st2 l.
+  Proof. change (lmin (loom_ranks st1 l) = lmin (loom_ranks st2 l)). apply lmin_perm, fu_loom_ranks. Qed.
+
+  (* in a loom whose processes all have a rank, the rank names the process *)
+  Lemma fu_rank_inj k1 k2 : 0 <= rank_of st1 k1 -> rank_of st1 k1 = rank_of st1 k2 -> k1 = k2.
+  Proof.
+    intros H E. destruct (rank_of_some st1 k1 H (tk_rank_nonneg _ _ W1)) as (f & If & Kf & Rf).
+    assert (H2 : 0 <= rank_of st1 k2) by lia.
+    destruct (rank_of_some st1 k2 H2 (tk_rank_nonneg _ _ W1)) as (g & Ig & Kg & Rg).
+    apply (tk_ranks _ _ W1) in If. apply (tk_ranks _ _ W1) in Ig.
+    destruct f as [kf [rf nf]], g as [kg [rg ng]]; simpl in *. subst kf kg.
+    assert (Erg : rg = rf) by lia. rewrite Erg in Ig. exact (TIES _ _ _ _ _ If Ig).
+  Qed.
+
+  Lemma fu_all_ranked l : rank_enabled st1 l = true -> rank_incomplete st1 l = false ->
+    forall p, In p (procs_of st1 l) -> 0 <= rank_of st1 (l, p).
+  Proof.
+    intros En Inc p Hp. unfold rank_incomplete in Inc. rewrite En in Inc. simpl in Inc.
+    destruct (Z_lt_le_dec (rank_of st1 (l, p)) 0) as [Hlt | Hge]; [|exact Hge].
+    assert (existsb (fun r => r <? 0) (loom_ranks st1 l) = true); [|congruence].
+    apply existsb_exists. exists (rank_of st1 (l, p)). split; [|apply Z.ltb_lt; exact Hlt].
+    unfold loom_ranks. apply in_map_iff. exists p. auto.
+  Qed.
+
+  Lemma fu_rank_min_attained l : rank_enabled st1 l = true -> rank_incomplete st1 l = false ->
+    exists p, In p (procs_of st1 l) /\ rank_of st1 (l, p) = rank_min st1 l /\ 0 <= rank_min st1 l.
+  Proof.
+    intros En Inc.
+    assert (NE : loom_ranks st1 l <> []).
+    { unfold rank_enabled in En. destruct (loom_ranks st1 l); [discriminate | congruence]. }
+    pose proof (lmin_in _ NE) as Hin.
+    assert (Hin' : In (rank_min st1 l) (map (fun p => rank_of st1 (l, p)) (procs_of st1 l))) by exact Hin.
+    apply in_map_iff in Hin'. destruct Hin' as (p & E & Hp).
+    exists p. split; [exact Hp | split; [exact E|]]. rewrite <- E. apply fu_all_ranked; assumption.
+  Qed.
+
+  Lemma fu_sort_loom l : rank_incomplete st1 l = false -> sort_loom st1 l = sort_loom st2 l.
+  Proof.
+    intros Inc. unfold sort_loom. rewrite <- fu_enabled.
+    assert (PS : isort (fun p q => if rank_enabled st1 l then rank_of st1 (l, p) <=? rank_of st1 (l, q) else p <=? q) (procs_of st1 l) =
+                 isort (fun p q => if rank_enabled st1 l then rank_of st2 (l, p) <=? rank_of st2 (l, q) else p <=? q) (procs_of st2 l)).
+    { rewrite (isort_ext (fun p q => if rank_enabled st1 l then rank_of st2 (l, p) <=? rank_of st2 (l, q) else p <=? q)
+                         (fun p q => if rank_enabled st1 l then rank_of st1 (l, p) <=? rank_of st1 (l, q) else p <=? q))
+        by (intros; rewrite !fu_rank_of; reflexivity).
+      destruct (rank_enabled st1 l) eqn:En.
+      - apply (isort_key_perm_eq (fun p => rank_of st1 (l, p))); [apply fu_procs_of|].
+        intros x y Hx Hy E. pose proof (fu_all_ranked l En Inc x Hx) as H0.
+        pose proof (fu_rank_inj _ _ H0 E) as K. congruence.
+      - apply (isort_key_perm_eq (fun p => p)); [apply fu_procs_of | auto]. }
+    rewrite <- PS. f_equal; [f_equal|].
+    - apply map_ext. intros p. rewrite fu_app_of. f_equal.
+      apply (isort_key_perm_eq (fun t => t)); [apply fu_threads_of | auto].
+    - apply (isort_key_perm_eq (fun c : Z * Z => snd c)); [apply fu_cpus_of|].
+      intros [i p] [j q] Hx Hy E. simpl in E. subst q. apply in_cpus_of in Hx, Hy.
+      f_equal. eapply (tk_cpu_phy _ _ W1); eassumption.
+  Qed.
+
+  Lemma finish_union : finish st1 = finish st2.
+  Proof.
+    pose proof EQ as (L & _). unfold finish.
+    rewrite <- (existsb_ext_in (rank_incomplete st1) (rank_incomplete st2) (st_looms st2)) by (intros; apply fu_incomplete).
+    rewrite <- (perm_existsb _ _ _ L).
+    destruct (existsb (rank_incomplete st1) (st_looms st1)) eqn:Inc; [reflexivity|].
+    assert (IncF : forall l, In l (st_looms st1) -> rank_incomplete st1 l = false).
+    { intros l Hl. destruct (rank_incomplete st1 l) eqn:E; [|reflexivity].
+      assert (existsb (rank_incomplete st1) (st_looms st1) = true) by (apply existsb_exists; exists l; auto). congruence. }
+    rewrite <- (forallb_ext_in (rank_enabled st1) (rank_enabled st2) (st_looms st2)) by (intros; apply fu_enabled).
+    rewrite <- (perm_forallb _ _ _ L).
+    assert (LS : isort (fun a b => if forallb (rank_enabled st1) (st_looms st1) then rank_min st1 a <=? rank_min st1 b else str_le a b) (st_looms st1) =
+                 isort (fun a b => if forallb (rank_enabled st1) (st_looms st1) then rank_min st2 a <=? rank_min st2 b else str_le a b) (st_looms st2)).
+    { rewrite (isort_ext (fun a b => if forallb (rank_enabled st1) (st_looms st1) then rank_min st2 a <=? rank_min st2 b else str_le a b)
+                         (fun a b => if forallb (rank_enabled st1) (st_looms st1) then rank_min st1 a <=? rank_min st1 b else str_le a b))
+        by (intros; rewrite !fu_rank_min; reflexivity).
+      destruct (forallb (rank_enabled st1) (st_looms st1)) eqn:All.
+      - apply (isort_key_perm_eq (rank_min st1)); [exact L|].
+        intros a b Ha Hb E. rewrite forallb_forall in All.
+        destruct (fu_rank_min_attained a (All a Ha) (IncF a Ha)) as (p & _ & Ep & Nn).
+        destruct (fu_rank_min_attained b (All b Hb) (IncF b Hb)) as (q & _ & Eq & _).
+        assert (K : (a, p) = (b, q)) by (apply fu_rank_inj; lia). congruence.
+      - apply isort_perm_eq; [apply str_le_total | apply str_le_trans | exact L|].
+        intros x y _ _. apply str_le_antisym. }
+    rewrite <- LS.
+    set (Ls := isort _ (st_looms st1)).
+    assert (MS : map (sort_loom st1) Ls = map (sort_loom st2) Ls).
+    { apply map_ext_in. intros l Hl. apply fu_sort_loom. apply IncF.
+      unfold Ls in Hl. eapply Permutation_in; [apply isort_perm | exact Hl]. }
+    rewrite <- MS. reflexivity.
+  Qed.
+End FinishUnion.
+
+(* ================================================================== *)
+(* C15: the three statements about the repaired model *)
+Lemma build_raw m : build m = bind (raw m) finish.
+Proof. reflexivity. Qed.
+
+Theorem build_union m1 m2 : rank_names_proc m1 -> same_union m1 m2 -> build m1 = build m2.
+Proof.
+  intros T U. rewrite !build_raw.
+  destruct (raw m1) as [st1| |] eqn:R1; destruct (raw m2) as [st2| |] eqn:R2; simpl; try reflexivity;
+    try (exfalso; eapply raw_no_crash; eassumption).
+  - apply (finish_union m1 m2 st1 st2 U T R1 R2).
+  - pose proof (raw_err_union _ _ (same_union_sym _ _ U) R2). congruence.
+  - pose proof (raw_err_union _ _ U R1). congruence.
+Qed.
+
+Lemma finish_no_crash st : finish st <> Crash.
+Proof.
+  unfold finish. destruct (existsb (rank_incomplete st) (st_looms st)); [discriminate|].
+  match goal with |- (if ?c then _ else _) <> _ => destruct c end; discriminate.
+Qed.
+
+Theorem build_no_crash m : build m <> Crash.
+Proof.
+  rewrite build_raw. destruct (raw m) eqn:R; simpl; [apply finish_no_crash | discriminate | exfalso; exact (raw_no_crash _ R)].
+Qed.
+
+Lemma build_err_of_raw m : raw m = Err -> build m = Err.
+Proof. intros H. rewrite build_raw, H. reflexivity. Qed.
+
+Lemma build_err_of_finish m : (forall st, raw m = Ok st -> finish st = Err) -> build m = Err.
+Proof.
+  intros H. rewrite build_raw. destruct (raw m) as [st| |] eqn:R; simpl; [apply H; reflexivity | reflexivity|].
+  exfalso; exact (raw_no_crash _ R).
+Qed.
+
+(* a loom of the trace is one of the sorted looms of finish *)
+Lemma finish_bad_loom st l :
+  In l (st_looms st) -> loom_bad (sort_loom st l) = true -> finish st = Err.
+Proof.
+  intros Hl Hb. unfold finish. destruct (existsb (rank_incomplete st) (st_looms st)); [reflexivity|].
+  match goal with |- (if existsb loom_bad (map _ ?Ls) then _ else _) = _ => set (LS := Ls) end.
+  assert (E : existsb loom_bad (map (sort_loom st) LS) = true); [|rewrite E; reflexivity].
+  apply existsb_exists. exists (sort_loom st l). split; [|exact Hb].
+  apply in_map. unfold LS. eapply Permutation_in; [apply Permutation_sym, isort_perm | exact Hl].
+Qed.
+
+Lemma loom_bad_intro l ps cs :
+  (existsb (fun p : Z * Z * list Z => snd (fst p) <=? 0) ps = true \/ cs = [] \/
+   existsb (fun c : Z * Z => Z.of_nat (length cs) <=? fst c) cs = true) -> loom_bad (l, ps, cs) = true.
+Proof.
+  intros [H | [H | H]]; unfold loom_bad; cbv beta iota.
+  - rewrite H. reflexivity.
+  - subst cs. simpl. rewrite orb_true_r. reflexivity.
+  - rewrite H. rewrite !orb_true_r. reflexivity.
+Qed.
+
+Lemma loom_in_spec m l : loom_in m l <-> In l (map s_loom m).
+Proof. unfold loom_in. rewrite in_map_iff. split; intros (s & A & B); exists s; auto. Qed.
+Lemma proc_in_spec m k : proc_in m k <-> In k (map spkey m).
+Proof. unfold proc_in. rewrite in_map_iff. split; intros (s & A & B); exists s; auto. Qed.
+
+Lemma no_elements {A} (l : list A) : (forall x, ~ In x l) -> l = [].
+Proof. destruct l as [|a l]; [reflexivity|]. intros H. exfalso. apply (H a). left; reflexivity. Qed.
+
+(* pigeonhole: n distinct indices in [0,n) leave no hole *)
+Lemma indices_no_hole (cs : list (Z * Z)) j :
+  NoDup (map fst cs) -> (forall c, In c cs -> 0 <= fst c < Z.of_nat (length cs)) ->
+  0 <= j < Z.of_nat (length cs) -> In j (map fst cs).
+Proof.
+  intros HN HB Hj. destruct (in_dec Z.eq_dec j (map fst cs)) as [H | H]; [exact H | exfalso].
+  assert (HN' : NoDup (j :: map fst cs)) by (constructor; assumption).
+  assert (HI : incl (j :: map fst cs) (map Z.of_nat (seq 0 (length cs)))).
+  { intros x [<- | Hx].
+    - apply in_map_iff. exists (Z.to_nat j). split; [lia|]. apply in_seq. lia.
+    - apply in_map_iff in Hx. destruct Hx as (c & <- & Hc). specialize (HB c Hc).
+      apply in_map_iff. exists (Z.to_nat (fst c)). split; [lia|]. apply in_seq. lia. }
+  pose proof (NoDup_incl_length HN' HI) as HL. simpl in HL. rewrite !map_length, seq_length in HL. lia.
+Qed.
+
+Lemma nodup_fst (cs : list (Z * Z)) :
+  NoDup cs -> (forall i p q, In (i, p) cs -> In (i, q) cs -> p = q) -> NoDup (map fst cs).
+Proof.
+  induction cs as [|[ci cp] cs IH]; intros ND H; simpl; [constructor|].
+  inversion ND as [|? ? Hn ND']; subst. constructor.
+  - intros Hin. apply in_map_iff in Hin. destruct Hin as ([di dp] & Ed & Hd). simpl in Ed. subst di.
+    assert (cp = dp) by (eapply H; [left; reflexivity | right; exact Hd]). subst dp. exact (Hn Hd).
+  - apply IH; [exact ND'|]. intros i p q Hp Hq. eapply H; right; eassumption.
+Qed.
+
+Lemma cpus_of_nodup st l : NoDup (st_cpus st) -> NoDup (cpus_of st l).
+Proof.
+  unfold cpus_of. induction (st_cpus st) as [|f X IH]; intros ND; simpl; [constructor|].
+  inversion ND as [|? ? Hn ND']; subst. destruct (name_eqb (fst f) l) eqn:En; [|apply IH; exact ND'].
+  simpl. destruct (snd f) as [e|] eqn:Es; simpl; [|apply IH; exact ND'].
+  constructor; [|apply IH; exact ND'].
+  intros Hin. apply Hn. apply in_flat_map in Hin. destruct Hin as ([l' o] & Hf & He).
+  apply filter_In in Hf. destruct Hf as [Hf En']. simpl in *. destruct o as [e'|]; [|contradiction].
+  destruct He as [<- | []]. apply name_eqb_true in En, En'. destruct f as [lf of]. simpl in *. subst. exact Hf.
+Qed.
+
+Theorem build_conflicts m : contradictory m -> build m = Err.
+Proof.
+  intros [k a b Ha Hb Hne | k r1 n1 r2 n2 H1 H2 Hne | k r1 n1 r2 n2 H1 H2 Hne
+         | l i p q H1 H2 Hne | l i j p H1 H2 Hne | Hdup | l Hl Hno | l i p j Hc Hj Hno | k Hk Hno].
+  - apply build_err_of_raw, raw_err. do 3 right; left.
+    apply (collect_err app_fact_dec valid_app confl_app confl_app_sym confl_app_irrefl).
+    right. exists (k, a), (k, b). repeat split; auto. unfold confl_app; simpl.
+    apply andb_true_iff. split; [apply pkey_eqb_true; reflexivity|]. apply negb_true_iff, Z.eqb_neq. exact Hne.
+  - apply build_err_of_raw, raw_err. do 4 right; left.
+    apply (collect_err rank_fact_dec valid_rank confl_rank confl_rank_sym confl_rank_irrefl).
+    right. exists (k, (r1, n1)), (k, (r2, n2)). repeat split; auto. unfold confl_rank; cbn [fst snd].
+    apply andb_true_iff. split; [apply pkey_eqb_true; reflexivity|].
+    destruct (rattr_dec (r1, n1) (r2, n2)) as [E | E]; [congruence | reflexivity].
+  - apply build_err_of_raw, raw_err. do 4 right; left.
+    apply (collect_err rank_fact_dec valid_rank confl_rank confl_rank_sym confl_rank_irrefl).
+    right. exists (k, (r1, Some n1)), (k, (r2, Some n2)). repeat split; auto. unfold confl_rank; cbn [fst snd].
+    apply andb_true_iff. split; [apply pkey_eqb_true; reflexivity|].
+    destruct (rattr_dec (r1, Some n1) (r2, Some n2)) as [E | E]; [congruence | reflexivity].
+  - apply build_err_of_raw, raw_err. right; left.
+    apply (collect_err cpu_fact_dec valid_cpu confl_cpu confl_cpu_sym confl_cpu_irrefl).
+    right. exists (l, Some (i, p)), (l, Some (i, q)). repeat split; auto. unfold confl_cpu; simpl.
+    apply andb_true_iff. split; [apply name_eqb_true; reflexivity|].
+    rewrite Z.eqb_refl. simpl. apply orb_true_iff. left. apply negb_true_iff, Z.eqb_neq. exact Hne.
+  - apply build_err_of_raw, raw_err. right; left.
+    apply (collect_err cpu_fact_dec valid_cpu confl_cpu confl_cpu_sym confl_cpu_irrefl).
+    right. exists (l, Some (i, p)), (l, Some (j, p)). repeat split; auto. unfold confl_cpu; simpl.
+    apply andb_true_iff. split; [apply name_eqb_true; reflexivity|].
+    rewrite Z.eqb_refl. simpl. apply orb_true_iff. right.
+    apply negb_true_iff, Z.eqb_neq. exact Hne.
+  - apply build_err_of_raw, raw_err. do 5 right. unfold cT. rewrite keys_claims. apply cT_err. left. exact Hdup.
+  - (* a loom without CPUs *)
+    apply build_err_of_finish. intros st R. pose proof (raw_tables_ok _ _ R) as W.
+    apply (finish_bad_loom st l); [apply (tk_looms _ _ W), loom_in_spec, Hl|].
+    unfold sort_loom. apply loom_bad_intro. right; left.
+    assert (E : cpus_of st l = []).
+    { apply no_elements. intros e He. apply in_cpus_of, (tk_cpus _ _ W) in He. exact (Hno e He). }
+    rewrite E. reflexivity.
+  - (* a hole below an index *)
+    apply build_err_of_finish. intros st R. pose proof (raw_tables_ok _ _ R) as W.
+    assert (Hl : In l (st_looms st)).
+    { apply (tk_looms _ _ W). unfold cpu_claims in Hc. apply in_flat_map in Hc. destruct Hc as (s & Hs & Hc).
+      apply in_map_iff. exists s. split; [|exact Hs]. unfold cpu_claim in Hc.
+      destruct (s_cpus s) as [[|e es]|]; simpl in Hc.
+      - destruct Hc as [Hc | []]; inversion Hc.
+      - destruct Hc as [Hc | Hc]; [inversion Hc; reflexivity|]. apply in_map_iff in Hc. destruct Hc as (x & Hx & _). inversion Hx; reflexivity.
+      - contradiction. }
+    apply (finish_bad_loom st l Hl). unfold sort_loom. apply loom_bad_intro. right; right.
+    set (cs := isort (fun c d : Z * Z => snd c <=? snd d) (cpus_of st l)).
+    assert (PC : Permutation cs (cpus_of st l)) by apply isort_perm.
+    assert (IC : forall e, In e cs <-> In (l, Some e) (cpu_claims m)).
+    { intros e. rewrite <- (tk_cpus _ _ W), <- in_cpus_of. split; apply Permutation_in; [exact PC | apply Permutation_sym; exact PC]. }
+    destruct (existsb (fun c : Z * Z => Z.of_nat (length cs) <=? fst c) cs) eqn:E; [reflexivity | exfalso].
+    assert (HB : forall c, In c cs -> 0 <= fst c < Z.of_nat (length cs)).
+    { intros c Hcs. split.
+      - apply IC, (tk_cpus _ _ W), (tk_cpu_valid _ _ W) in Hcs. destruct Hcs as (a & b & Eab & Ha & _).
+        simpl in Eab. inversion Eab; subst. exact Ha.
+      - destruct (Z_lt_le_dec (fst c) (Z.of_nat (length cs))) as [Hlt | Hge]; [exact Hlt|].
+        assert (existsb (fun c : Z * Z => Z.of_nat (length cs) <=? fst c) cs = true); [|congruence].
+        apply existsb_exists. exists c. split; [exact Hcs | apply Z.leb_le; exact Hge]. }
+    assert (HN : NoDup (map fst cs)).
+    { apply nodup_fst.
+      - eapply Permutation_NoDup; [apply Permutation_sym; exact PC|]. apply cpus_of_nodup.
+        pose proof R as R'. apply raw_ok in R'. destruct R' as (_ & C & _).
+        apply (collect_ok cpu_fact_dec valid_cpu confl_cpu confl_cpu_sym confl_cpu_irrefl) in C. destruct C as (ND & _). exact ND.
+      - intros a b c Hb Hc'. eapply (tk_cpu_idx _ _ W); apply (tk_cpus _ _ W); apply IC; eassumption. }
+    assert (Hi : In (i, p) cs) by (apply IC; exact Hc).
+    pose proof (HB _ Hi) as Hib. simpl in Hib.
+    assert (Hjn : In j (map fst cs)) by (apply indices_no_hole; auto; lia).
+    apply in_map_iff in Hjn. destruct Hjn as ([j' q] & Ej & Hq). simpl in Ej. subst j'.
+    apply IC in Hq. exact (Hno q Hq).
+  - (* a process without app id *)
+    apply build_err_of_finish. intros st R. pose proof (raw_tables_ok _ _ R) as W.
+    destruct k as [l p].
+    assert (Hp : In (l, p) (st_procs st)) by (apply (tk_procs _ _ W), proc_in_spec, Hk).
+    assert (Hl : In l (st_looms st)).
+    { apply (tk_looms _ _ W). destruct Hk as (s & Hs & Es). apply in_map_iff. exists s. split; [|exact Hs].
+      unfold spkey in Es. inversion Es; reflexivity. }
+    apply (finish_bad_loom st l Hl). unfold sort_loom. apply loom_bad_intro. left.
+    apply existsb_exists. exists (p, app_of st (l, p), isort Z.leb (threads_of st (l, p))). split.
+    + apply in_map_iff. exists p. split; [reflexivity|].
+      eapply Permutation_in; [apply Permutation_sym, isort_perm|]. apply in_procs_of. exact Hp.
+    + simpl. unfold app_of. destruct (find (fun f => pkey_eqb (fst f) (l, p)) (st_apps st)) as [f|] eqn:E; [|reflexivity].
+      apply find_some in E. destruct E as [If Ef]. apply pkey_eqb_true in Ef. apply (tk_apps _ _ W) in If.
+      destruct f as [kf af]. simpl in Ef. subst kf. exfalso. exact (Hno af If).
+Qed.
+
+(* ------------------------------------------------------------------ *)
+(* Corollaries: the two kinds of redistribution named by the property *)
+Lemma perm_same_union m1 m2 : Permutation m1 m2 -> same_union m1 m2.
+Proof.
+  intros P. repeat split; try (apply Permutation_map; exact P);
+    try (apply Permutation_in, perm_flat_map; exact P);
+    try (apply Permutation_in, perm_flat_map, Permutation_sym; exact P).
+Qed.
+
+Theorem build_perm m1 m2 : rank_names_proc m1 -> Permutation m1 m2 -> build m1 = build m2.
+Proof. intros T P. apply build_union; [exact T | apply perm_same_union; exact P]. Qed.
+
+Theorem build_union_rows m1 m2 sys1 : rank_names_proc m1 -> same_union m1 m2 -> build m1 = Ok sys1 ->
+  exists sys2, build m2 = Ok sys2 /\ thread_rows sys2 = thread_rows sys1 /\ cpu_rows sys2 = cpu_rows sys1.
+Proof. intros T U H. exists sys1. rewrite <- (build_union _ _ T U). auto. Qed.
+
+(* the hypothesis rank_names_proc is needed: with one rank in two processes the
+   stable sort keeps the enumeration order *)
+Definition w_tie1 : list stream_meta :=
+  [mkS n0 100 101 (Some 1) (Some 0) (Some 1) (Some [(0, 0)]); mkS n0 200 201 (Some 2) (Some 0) (Some 1) None].
+Definition w_tie2 : list stream_meta :=
+  [mkS n0 200 201 (Some 2) (Some 0) (Some 1) None; mkS n0 100 101 (Some 1) (Some 0) (Some 1) (Some [(0, 0)])].
+
+Lemma union_needs_distinct_ranks :
+  exists m1 m2 s1 s2, same_union m1 m2 /\ build m1 = Ok s1 /\ build m2 = Ok s2 /\ thread_rows s1 <> thread_rows s2.
+Proof.
+  exists w_tie1, w_tie2. eexists. eexists. split; [|split; [|split]].
+  - apply perm_same_union. apply perm_swap.
+  - vm_compute. reflexivity.
+  - vm_compute. reflexivity.
+  - vm_compute. discriminate.
+Qed.
